@@ -157,7 +157,13 @@ func (w *World) BuildCosmosTx(a *Account, o TxOpts, msgs ...sdk.Msg) ([]byte, er
 	return w.TxConfig().TxEncoder()(tb.GetTx())
 }
 
-func (w *World) buildEIP712(a *Account, o TxOpts, chainID string, accNum, seq uint64, fee sdk.Coins, msgs []sdk.Msg) ([]byte, error) {
+func (w *World) buildEIP712(a *Account, o TxOpts, chainID string, accNum, seq uint64, fee sdk.Coins, msgs []sdk.Msg) (out []byte, err error) {
+	defer func() {
+		// some message types have no amino sign bytes (MsgEthereumTx panics)
+		if x := recover(); x != nil {
+			out, err = nil, fmt.Errorf("eip712: %v", x)
+		}
+	}()
 	pc, err := haqqtypes.ParseChainID(chainID)
 	if err != nil {
 		return nil, err
